@@ -27,6 +27,7 @@ From Coq Require Import ZArith NArith List Bool Strings.Byte.
 Require Import Regen.Base.Bytes Regen.Base.Calendar Regen.Dec.Dec Regen.Ids.Ids.
 Require Import Regen.Ledger.Types Regen.Ledger.Msgs Regen.Ledger.Orm Regen.Ledger.BaseMsgs Regen.Ledger.BasketMsgs.
 Require Import Regen.Query.Paginate.
+Require Regen.Data.BytesExt Regen.Data.Iri Regen.Data.DataMsgs.
 Import ListNotations.
 Local Open Scope N_scope.
 
@@ -186,7 +187,11 @@ Inductive qrow (A : Type) : Type :=
 | RAmount (x : A)                                                                        (* QueryBasketBalanceResponse *)
 | ROrder (id : N) (seller : addr) (denom : bytes) (quantity : bytes) (ask_denom : bytes) (ask_amount : Z)
          (disable_auto_retire : bool) (expiration : option ts)                           (* SellOrderInfo *)
-| RAllowedDenom (bank display : bytes) (exponent : Z).
+| RAllowedDenom (bank display : bytes) (exponent : Z)
+| RAttestation (iri : bytes) (attestor : addr) (timestamp : ts)                          (* data AttestationInfo *)
+| RResolver (id : N) (url : bytes) (manager : option addr)                               (* data ResolverInfo; None = empty manager *)
+| RAnchor (iri : bytes) (timestamp : ts).                                                (* data AnchorInfo (iri, timestamp) *)
+Arguments RAttestation {A}. Arguments RResolver {A}. Arguments RAnchor {A}.
 Arguments RClass {A}. Arguments RProject {A}. Arguments RBatch {A}. Arguments RBalance {A}.
 Arguments RSupply {A}. Arguments RCreditType {A}. Arguments RAddr {A}. Arguments RStr {A}.
 Arguments RBasket {A}. Arguments RBasketOne {A}. Arguments RBasketBalance {A}. Arguments RAmount {A}.
@@ -408,6 +413,115 @@ Definition run_query (ab : addr -> bytes) (s : state) (q : qreq) : qres :=
       | None => QErr ENotFound
       end
   | QAllowedDenoms => paged_total r_allowed_denom (q_allowed_denoms s)
+  end.
+
+(* ------------------------------------------------------------------ *)
+(* x/data query service (regen.data.v2.Query) over the data state model *)
+(* ------------------------------------------------------------------ *)
+
+(* /repo/x/data/server/query_*.go; tables of /repo/proto/regen/data/v1/state.proto:
+     DataID pk (id), unique index (iri); DataAnchor pk (id); DataAttestor pk (id, attestor), index
+     (attestor); Resolver pk (id), index (url), unique index (url, manager); DataResolver pk (id, resolver_id).
+   The data state model (Data/DataMsgs.v) keeps every table as an association list. *)
+Definition dscan {E : Type} (l : list E) (f : E -> bool) (leb : E -> E -> bool) : list E :=
+  sort_by leb (List.filter f l).
+
+Section data_entries.
+  Variable ab : addr -> bytes.
+  Variable d : DataMsgs.dstate.
+
+  (* AttestationsByIRI / ByHash: DataAttestor primary key (id, attestor), prefix id (a non-terminal
+     bytes field is length-prefixed, so the prefix matches the whole id); attestor is terminal *)
+  Definition q_attestations_by_id (id : bytes) : list (bytes * addr * ts) :=
+    dscan (DataMsgs.attestors d) (fun e => bytes_eqb e.1.1 id) (fun x y => bytes_leb (ab x.1.2) (ab y.1.2)).
+  (* AttestationsByAttestor: index (attestor) + id; id is terminal *)
+  Definition q_attestations_by_attestor (a : addr) : list (bytes * addr * ts) :=
+    dscan (DataMsgs.attestors d) (fun e => (e.1.2 =? a)%N) (fun x y => bytes_leb x.1.1 y.1.1).
+  (* ResolversByIRI / ByHash: DataResolver primary key (id, resolver_id), prefix id *)
+  Definition q_data_resolvers_by_id (id : bytes) : list (bytes * N) :=
+    dscan (DataMsgs.data_resolvers d) (fun e => bytes_eqb e.1 id) (fun x y => (x.2 <=? y.2)%N).
+  (* ResolversByURL: index (url) + id; url is a non-terminal string: matched as a whole *)
+  Definition q_resolvers_by_url (url : bytes) : list (N * DataMsgs.resolver) :=
+    dscan (DataMsgs.resolvers d) (fun e => bytes_eqb e.2.1 url) (fun x y => (x.1 <=? y.1)%N).
+  (* DataIDTable().GetByIri: the unique index (iri) *)
+  Definition data_id_by_iri (iri : bytes) : option bytes :=
+    option_map fst (List.find (fun e : bytes * bytes => bytes_eqb e.2 iri) (DataMsgs.data_ids d)).
+
+  Definition r_resolver (rid : N) (r : DataMsgs.resolver) : mrow := RResolver rid r.1 r.2.
+  (* DataIDTable().Get(dataAttestor.Id) *)
+  Definition r_attestation_of_attestor (a : addr) (e : bytes * addr * ts) : option mrow :=
+    match DataMsgs.get_data_id e.1.1 d with
+    | Some iri => Some (RAttestation iri a e.2)
+    | None => None
+    end.
+  (* ResolverTable().Get(item.ResolverId) *)
+  Definition r_resolver_of_data (e : bytes * N) : option mrow :=
+    match DataMsgs.get_resolver e.2 d with
+    | Some r => Some (r_resolver e.2 r)
+    | None => None
+    end.
+End data_entries.
+
+Inductive dqreq :=
+| DQAttestationsByIRI (iri : bytes) | DQAttestationsByHash (ch : Iri.content_hash) | DQAttestationsByAttestor (a : addr)
+| DQResolversByIRI (iri : bytes) | DQResolversByHash (ch : Iri.content_hash) | DQResolversByURL (url : bytes)
+| DQResolver (id : N) | DQAnchorByIRI (iri : bytes).
+
+(* "len(request.Iri) == 0" and data.ParseIRI(request.Iri): any parse error is InvalidArgument.
+   Domain guard: IRIs on which base58.Decode would panic ([Iri.PPanic]) are not generated. *)
+Definition iri_ok (iri : bytes) : bool :=
+  match iri with
+  | [] => false
+  | _ => match Iri.parse_iri_sha iri with BytesExt.Ok _ => true | BytesExt.Err _ => false end
+  end.
+
+Definition attestations_of_iri (ab : addr -> bytes) (d : DataMsgs.dstate) (iri : bytes) : qres :=
+  match data_id_by_iri d iri with
+  | Some id => paged_total (fun e : bytes * addr * ts => RAttestation iri e.1.2 e.2) (q_attestations_by_id ab d id)
+  | None => QErr ENotFound
+  end.
+Definition resolvers_of_iri (d : DataMsgs.dstate) (iri : bytes) : qres :=
+  match data_id_by_iri d iri with
+  | Some id => paged (r_resolver_of_data d) (q_data_resolvers_by_id d id)
+  | None => QErr ENotFound
+  end.
+
+Definition run_data_query (ab : addr -> bytes) (d : DataMsgs.dstate) (q : dqreq) : qres :=
+  match q with
+  | DQAttestationsByIRI iri => if iri_ok iri then attestations_of_iri ab d iri else QErr EInvalidArgument
+  | DQAttestationsByHash ch =>
+      match Iri.to_iri_sha ch with
+      | BytesExt.Ok iri => attestations_of_iri ab d iri
+      | BytesExt.Err _ => QErr EInvalidArgument
+      end
+  | DQAttestationsByAttestor a => paged (r_attestation_of_attestor d a) (q_attestations_by_attestor d a)
+  | DQResolversByIRI iri => if iri_ok iri then resolvers_of_iri d iri else QErr EInvalidArgument
+  | DQResolversByHash ch =>
+      match Iri.to_iri_sha ch with
+      | BytesExt.Ok iri => resolvers_of_iri d iri
+      | BytesExt.Err _ => QErr EInvalidArgument
+      end
+  | DQResolversByURL url =>
+      match url with
+      | [] => QErr EInvalidArgument
+      | _ => paged_total (fun e : N * DataMsgs.resolver => r_resolver e.1 e.2) (q_resolvers_by_url d url)
+      end
+  | DQResolver id =>
+      if (id =? 0)%N then QErr EInvalidArgument else
+      match DataMsgs.get_resolver id d with
+      | Some r => QOne (r_resolver id r)
+      | None => QErr ENotFound
+      end
+  | DQAnchorByIRI iri =>
+      if negb (iri_ok iri) then QErr EInvalidArgument else
+      match data_id_by_iri d iri with
+      | Some id =>
+          match DataMsgs.get_anchor id d with
+          | Some t => QOne (RAnchor iri t)
+          | None => QErr ENotFound
+          end
+      | None => QErr ENotFound
+      end
   end.
 
 (* ------------------------------------------------------------------ *)
